@@ -583,3 +583,40 @@ def run(ctx):
         if n < 2:
             raise AnchorMissing("expected the attribute recognisers of Vec and HashMap (found %d)" % n)
 
+    with ctx.rule("C16.R11", "T12", "struct recognisers: an event that is accepted without being handed on moves the machine (no state accepts unboundedly many empty items)", floor=4) as r:
+        # The model path sees `@Tag(,)` as an attribute whose value is a record of two empty items and rejects it for a struct without header fields;
+        # a recogniser that answers "more" to an Extant and stays where it is accepts any number of them: the two reading paths disagree.
+        n = 0
+        for b in f.all_bodies():
+            if b.meta.get("name") != "feed_event" or "read::recognizer::" not in b.defpath or "{closure" in b.defpath or "::primitive::" in b.defpath or "::impls::" in b.defpath:
+                continue
+            sw = [si for si in b.switches_on(lambda p, si: True) if si.get("kind") == "disc" and describe_place(b, si["place"]) in ("self.state", "(*self.state)")]
+            if not sw:
+                continue
+            st = sw[0]
+            sve = b.variant_edges(st["block"])
+            tag = (b.meta.get("self_adt") or b.defpath).split("::")[-1].split("<")[0]
+            writes = {i for i, j, p_, rv, line in b.assigns() if describe_place(b, p_) in ("self.state", "(*self.state)")}
+            none_rets = {i for i, j, p_, rv, line in b.assigns() if p_[0] == 0 and not p_[1] and describe_rvalue(b, rv) in ("Option::None()", "None")}
+            fw_blocks = {c.block for c in b.calls if (c.name is None or c.via_name == "feed_event") and any(describe_operand(b, a) == "input" for a in c.args)}
+            for isw in [si for si in b.switches_on(lambda p, si: True) if si.get("kind") == "disc" and describe_place(b, si["place"]) in ("input", "(*input)") and (si.get("adt") or "").endswith("event::ReadEvent")]:
+                ive = b.variant_edges(isw["block"])
+                if "Extant" not in ive or ive["Extant"] == isw["otherwise"]:
+                    continue
+                states = [v for v, t in sve.items() if t != st["otherwise"] and (b.dominates(t, isw["block"]) or t == isw["block"])]
+                if not states:
+                    continue
+                start = ive["Extant"]
+                # paths from the Extant edge to a `None` answer
+                targets = {i for i in none_rets if b.dominates(start, i) or i == start}
+                if not targets:
+                    continue
+                n += 1
+                ctx.saw(b)
+                ok, wit = b.must_pass([start], writes | fw_blocks, targets=targets) if start not in (writes | fw_blocks) else (True, None)
+                r.check(ok, "%s/%s/Extant-accepted=>state-changes" % (tag, "|".join(sorted(states))), b.loc(b.blocks[isw["block"]]["t"].get("line")),
+                        "an empty item accepted in state %s moves the machine on" % "|".join(sorted(states)),
+                        "in state %s an Extant event is answered with `None` without changing state: `@Tag(,,,)` is accepted with any number of empty items when read directly, but rejected when read through the model" % "|".join(sorted(states)))
+        if n < 4:
+            raise AnchorMissing("expected the tag-attribute arms of the struct recognisers (found %d)" % n)
+
